@@ -176,6 +176,17 @@ func (e *Env) eval(x Expr) (TV, error) {
 		if err != nil {
 			return TV{}, err
 		}
+		if xv.T.Sort == SStr {
+			// substring of a string value: s[lo:hi]
+			shi := TV{T(SInt, "(slen %s)", xv.T.S), tInt}
+			if x.Hi != nil {
+				shi, err = e.eval(x.Hi)
+				if err != nil {
+					return TV{}, err
+				}
+			}
+			return TV{vc.strSub(xv.T, lo.T, shi.T), types.Typ[types.String]}, nil
+		}
 		if xv.T.Sort != SSlice {
 			return TV{}, fmt.Errorf("slice expression on non-slice %s", exprString(x.X))
 		}
